@@ -14,7 +14,7 @@ import json
 import usim
 
 from harness import faultlib as fl
-from harness.check import parse_nat_list
+from harness.check import parse_z_lists
 
 COQ_FILES = ['props/C09.v']
 RULE = ('a case = (2-5 contender programs over one usim.Lock: arrival offsets incl. same-turn arrivals, '
@@ -158,8 +158,13 @@ async def _contender(S, lock, i, prog, trip):
 
 
 def _boundary(S, loop):
-    lock = S.the_lock
-    S.mlog('bnd', S.aid(loop.activity), bool(lock.available))
+    # asked by a neutral party (every contender is suspended at a boundary)
+    saved = loop.activity
+    loop.activity = fl._INJECTOR
+    try:
+        S.mlog('bnd', None, bool(S.the_lock.available))
+    finally:
+        loop.activity = saved
 
 
 def run_case(case):
@@ -182,6 +187,7 @@ def run_case(case):
         return main()
 
     fl.run_instrumented(S, main_factory)
+    S.not_done = sorted(i for i in range(case['n']) if i not in S.tasks or not bool(S.tasks[i].done))
     return S
 
 
@@ -252,11 +258,9 @@ def monitor(case, S):
     if S.crash is not None:
         bad.append('CRASH: run() raised ' + S.crash)
     else:
-        if final is None or len(ended) < case['n']:
-            started = {ev[1] for ev in S.mon if ev[0] in ('req', 'end', 'avail')}
-            stuck = sorted(set(range(case['n'])) - ended)
+        if final is None or S.not_done:
             bad.append('STUCK: simulation ended with activities %r never finishing (ownership not passed on); '
-                       'holder=%r waiting=%r started=%r' % (stuck, holder, waiters, sorted(started)))
+                       'holder=%r waiting=%r' % (S.not_done, holder, waiters))
         elif final is not True or holder is not None or waiters:
             bad.append('RELEASE: at quiescence lock.available=%r holder=%r waiting=%r' % (final, holder, waiters))
     return bad
@@ -323,10 +327,9 @@ def correspond(ctx, batch):
     res = ctx.run_case_files(paths)
     for gi, grp in enumerate(groups):
         rc, out = res[paths[gi]]
-        parts = out.split('=')
-        bad = parse_nat_list('=' + parts[1]) if len(parts) > 2 else None
-        pos = parse_nat_list('=' + parts[2]) if len(parts) > 2 else None
-        if rc != 0 or bad is None or pos is None:
+        lists = parse_z_lists(out)
+        bad, pos = (lists + [None, None])[:2]
+        if rc != 0 or bad is None or pos is None or len(bad) != len(pos):
             ctx.mismatch('locks', grp[0][0], 'coqc rc=%s' % rc, out[-600:], 'case file did not evaluate')
             continue
         for idx, p in zip(bad, pos):
